@@ -203,12 +203,20 @@ where
                     let found = match res {
                         Ok(()) => None,
                         Err(TestError::Fail(why, t)) => {
-                            let rep = exec(&t);
-                            if rep.violation.is_none() {
-                                // a failure that does not reproduce is a defect of the check
-                                acc.borrow_mut().extra.insert(format!("unreproducible_failure: {}", why), 1);
+                            // re-execute (library-side randomness such as RandomState can make a
+                            // failure flaky: retry, and report the observed failure in any case)
+                            let mut v = None;
+                            for _ in 0..8 {
+                                v = exec(&t).violation;
+                                if v.is_some() {
+                                    break;
+                                }
                             }
-                            rep.violation.map(|v| (t, v))
+                            if v.is_none() {
+                                acc.borrow_mut().extra.insert("failures_not_reproduced_on_reexecution".to_string(), 1);
+                                v = Some(Violation { prop: "", step: 0, msg: format!("{} (observed during the search; did not reproduce on re-execution, library-side randomness involved)", why), sig: "unreproduced".into() });
+                            }
+                            v.map(|v| (t, v))
                         }
                         Err(TestError::Abort(r)) => {
                             acc.borrow_mut().extra.insert(format!("proptest_abort:{}", r), 1);
